@@ -151,3 +151,164 @@ Proof.
       destruct (Nat.eqb 0 p); [cbn [n_parent upd]|]; apply (t_root d T).
   - intros i Hi. rewrite Hold by exact Hi. destruct (Nat.eqb i p); split; reflexivity.
 Qed.
+
+(* ---- the importer state keeps the invariant *)
+Definition ids_ok (d : doc) (l : list nat) : Prop := Forall (fun i => i < List.length (d_nodes d)) l.
+
+Record state_ok (s : istate) : Prop := {
+  s_tree : tree_ok (i_doc s);
+  s_next : ids_ok (i_doc s) (i_next s);
+  s_prev : match i_prev s with Some l => ids_ok (i_doc s) l | None => True end;
+  s_prehdr : i_prehdr s < List.length (d_nodes (i_doc s)) }.
+
+Lemma ids_ok_mono d d' l : List.length (d_nodes d) <= List.length (d_nodes d') -> ids_ok d l -> ids_ok d' l.
+Proof. intros H. unfold ids_ok. apply Forall_impl. intros a Ha. lia. Qed.
+
+Lemma nth_ids_ok d l k : ids_ok d l -> 0 < List.length (d_nodes d) -> nth k l 0 < List.length (d_nodes d).
+Proof.
+  intros H H0. destruct (Nat.lt_ge_cases k (List.length l)) as [Hk|Hk].
+  - unfold ids_ok in H. rewrite Forall_forall in H. apply H. now apply nth_In.
+  - rewrite nth_overflow by exact Hk. exact H0.
+Qed.
+
+Lemma ids_ok_len d d' l : List.length (d_nodes d') = List.length (d_nodes d) -> ids_ok d l -> ids_ok d' l.
+Proof. intros H. apply ids_ok_mono. lia. Qed.
+
+Lemma ids_ok_app d l1 l2 : ids_ok d l1 -> ids_ok d l2 -> ids_ok d (l1 ++ l2).
+Proof. intros H1 H2. apply Forall_app. split; assumption. Qed.
+
+Lemma ids_ok_cons d x l : x < List.length (d_nodes d) -> ids_ok d l -> ids_ok d (x :: l).
+Proof. intros H1 H2. constructor; assumption. Qed.
+
+Lemma ids_ok_nil d : ids_ok d [].
+Proof. constructor. Qed.
+
+Lemma same_links_len d d' : same_links d d' -> List.length (d_nodes d') = List.length (d_nodes d).
+Proof. intros [L _]. exact L. Qed.
+
+Ltac links := first [apply links_set_header_self | apply links_sig_update | apply links_set_cancelled
+                    | apply links_add_error | apply links_set_header_stage | apply links_push_mst | apply same_links_refl].
+
+Lemma state_ok_intro d nxt prv ph row stg : tree_ok d -> ids_ok d nxt -> (match prv with Some l => ids_ok d l | None => True end) ->
+  ph < List.length (d_nodes d) ->
+  state_ok {| i_doc := d; i_row := row; i_stage := stg; i_next := nxt; i_prev := prv; i_prehdr := ph |}.
+Proof. intros. constructor; assumption. Qed.
+
+Lemma step_cell_ok bad row s icol col s' b : state_ok s -> step_cell bad row s icol col = IOk (s', b) -> state_ok s'.
+Proof.
+  intros [T Hn Hp Hh]. unfold step_cell.
+  assert (H0 : 0 < List.length (d_nodes (i_doc s))) by apply T.
+  destruct (startswith "**" col).
+  - destruct (add_node _ _ _ _ _ _ _) as [[d1 id]| |] eqn:Ha; try discriminate.
+    assert (T0 : tree_ok (set_header_stage (i_doc s) (i_stage s))) by (eapply tree_ok_same_links; [links | exact T]).
+    destruct (add_node_spec _ _ _ _ _ _ _ _ _ T0 Hh Ha) as [Eid [El [T1 _]]].
+    intros H. injection H as <- <-. unfold push_next, set_doc. cbn [i_doc i_row i_stage i_next i_prev i_prehdr].
+    assert (L : List.length (d_nodes (set_header_self d1 id)) = S id) by (rewrite (same_links_len _ _ (links_set_header_self d1 id)); exact El).
+    assert (Eid' : id = List.length (d_nodes (i_doc s))) by exact Eid.
+    apply state_ok_intro.
+    + eapply tree_ok_same_links; [links | exact T1].
+    + apply ids_ok_app; [eapply ids_ok_mono; [|exact Hn]; lia | apply ids_ok_cons; [lia | apply ids_ok_nil]].
+    + destruct (i_prev s); [eapply ids_ok_mono; [|exact Hp]; lia | exact I].
+    + lia.
+  - destruct (mem_str col spine_operations).
+    + destruct (i_prev s) as [prev|] eqn:Ep; [|discriminate].
+      destruct (Nat.leb _ icol); [discriminate|].
+      assert (Hpar : nth icol prev 0 < List.length (d_nodes (i_doc s))) by (apply nth_ids_ok; assumption).
+      destruct (add_node _ _ _ _ _ _ _) as [[d1 id]| |] eqn:Ha; try discriminate.
+      destruct (add_node_spec _ _ _ _ _ _ _ _ _ T Hpar Ha) as [Eid [El [T1 _]]].
+      assert (Gen : forall d2 nxt, same_links d1 d2 -> (nxt = i_next s \/ nxt = i_next s ++ [id] \/ nxt = i_next s ++ [id; id]) ->
+                    state_ok {| i_doc := d2; i_row := i_row s; i_stage := i_stage s; i_next := nxt; i_prev := i_prev s; i_prehdr := i_prehdr s |}).
+      { intros d2 nxt SL Hnx. pose proof (same_links_len _ _ SL) as L2. apply state_ok_intro.
+        - eapply tree_ok_same_links; eassumption.
+        - assert (B : ids_ok d2 (i_next s)) by (eapply ids_ok_mono; [|exact Hn]; lia).
+          assert (Bi : id < List.length (d_nodes d2)) by lia.
+          destruct Hnx as [->|[->| ->]]; [exact B | |]; apply ids_ok_app; try exact B; repeat apply ids_ok_cons; try exact Bi; apply ids_ok_nil.
+        - rewrite Ep. eapply ids_ok_mono; [|exact Hp]. lia.
+        - lia. }
+      destruct (String.eqb col "*-").
+      { intros H. injection H as <- <-. unfold set_doc. cbn [i_doc i_row i_stage i_next i_prev i_prehdr].
+        apply Gen; [destruct (n_lastop _); links | now left]. }
+      destruct (String.eqb col "*+" || String.eqb col "*^").
+      { intros H. injection H as <- <-. unfold push_next, set_doc. cbn [i_doc i_row i_stage i_next i_prev i_prehdr].
+        apply Gen; [links | right; right; reflexivity]. }
+      destruct (String.eqb col "*v"); [|discriminate].
+      intros H. injection H as <- <-.
+      destruct (match icol with O => true | S _ => _ end); unfold push_next, set_doc; cbn [i_doc i_row i_stage i_next i_prev i_prehdr];
+        (apply Gen; [destruct (n_lastop _); links | auto]).
+    + match goal with |- context [match ?X with IOk _ => _ | IErr _ => _ | IOut => _ end = _] => destruct X as [[tok is_err]| |] end;
+        try discriminate.
+      destruct (i_prev s) as [prev|] eqn:Ep; [|discriminate].
+      destruct (Nat.leb _ icol); [discriminate|].
+      assert (Hpar : nth icol prev 0 < List.length (d_nodes (i_doc s))) by (apply nth_ids_ok; assumption).
+      destruct (add_node _ _ _ _ _ _ _) as [[d1 id]| |] eqn:Ha; try discriminate.
+      destruct (add_node_spec _ _ _ _ _ _ _ _ _ T Hpar Ha) as [Eid [El [T1 _]]].
+      intros H. injection H as <- <-. unfold push_next, set_doc. cbn [i_doc i_row i_stage i_next i_prev i_prehdr].
+      set (d2 := if is_err then add_error d1 id else d1).
+      assert (SL2 : same_links d1 d2) by (unfold d2; destruct is_err; links).
+      match goal with |- state_ok {| i_doc := ?d3; i_row := _; i_stage := _; i_next := _; i_prev := _; i_prehdr := _ |} =>
+        assert (SL3 : same_links d1 d3) end.
+      { destruct (cat_beq _ BARLINES || _); [exact SL2|]. destruct (String.eqb _ "BoundingBoxToken"); [exact SL2|].
+        destruct (is_signature_token tok); [eapply same_links_trans; [exact SL2 | links] | exact SL2]. }
+      pose proof (same_links_len _ _ SL3) as L3. apply state_ok_intro.
+      * eapply tree_ok_same_links; eassumption.
+      * apply ids_ok_app; [eapply ids_ok_mono; [|exact Hn]; lia | apply ids_ok_cons; [lia | apply ids_ok_nil]].
+      * rewrite Ep. eapply ids_ok_mono; [|exact Hp]. lia.
+      * lia.
+Qed.
+
+Lemma step_cells_ok bad row : forall cols s icol bar s' b, state_ok s -> step_cells bad row s icol cols bar = IOk (s', b) -> state_ok s'.
+Proof.
+  induction cols as [|c cols IH]; intros s icol bar s' b Hs; simpl.
+  - intros H. injection H as <- <-. exact Hs.
+  - destruct (step_cell bad row s icol c) as [[s1 b1]| |] eqn:Hc; try discriminate.
+    intros H. eapply IH; [eapply step_cell_ok; eassumption | exact H].
+Qed.
+
+Lemma step_row_ok bad s row s' : state_ok s -> step_row bad s row = IOk s' -> state_ok s'.
+Proof.
+  intros Hs. pose proof Hs as [T Hn Hp Hh]. unfold step_row. destruct row as [|first rest].
+  - intros H. injection H as <-. exact Hs.
+  - set (prev := match i_next s with [] => i_prev s | n :: l0 => Some (n :: l0) end).
+    assert (Hprev : match prev with Some l => ids_ok (i_doc s) l | None => True end).
+    { unfold prev. destruct (i_next s) eqn:E; [exact Hp | exact Hn]. }
+    clearbody prev.
+    destruct (startswith "!!" first).
+    + destruct (add_node _ _ _ _ _ _ _) as [[d1 id]| |] eqn:Ha; try discriminate. cbn [i_doc i_prehdr] in Ha.
+      destruct (add_node_spec _ _ _ _ _ _ _ _ _ T Hh Ha) as [Eid [El [T1 _]]].
+      intros H. injection H as <-. cbn [i_doc]. apply state_ok_intro.
+      * exact T1.
+      * apply ids_ok_nil.
+      * destruct prev; [eapply ids_ok_mono; [|exact Hprev]; lia | exact I].
+      * lia.
+    + match goal with |- context [step_cells bad ?r ?s0 0 ?r false] =>
+        assert (Hs0 : state_ok s0) by (apply state_ok_intro; [exact T | apply ids_ok_nil | exact Hprev | exact Hh]);
+        destruct (step_cells bad r s0 0 r false) as [[s1 bar]| |] eqn:Hc end; try discriminate.
+      pose proof (step_cells_ok _ _ _ _ _ _ _ _ Hs0 Hc) as [T1 Hn1 Hp1 Hh1].
+      intros H. injection H as <-. cbn [i_doc i_next i_prev i_prehdr].
+      assert (SL : same_links (i_doc s1) (if bar then push_mst (i_doc s1) (S (i_stage s)) else i_doc s1)) by (destruct bar; links).
+      pose proof (same_links_len _ _ SL) as L. apply state_ok_intro.
+      * eapply tree_ok_same_links; eassumption.
+      * eapply ids_ok_len; [exact L | exact Hn1].
+      * assert (Hp2 : match i_prev s1 with Some l => ids_ok (if bar then push_mst (i_doc s1) (S (i_stage s)) else i_doc s1) l | None => True end).
+        { destruct (i_prev s1); [eapply ids_ok_len; [exact L | exact Hp1] | exact I]. }
+        destruct (i_next s1); [|exact Hp2]. destruct (i_prev s1) as [[|x l]|]; [exact Hp2 | apply ids_ok_nil | exact I].
+      * lia.
+Qed.
+
+Theorem run_rows_ok bad : forall rows s s', state_ok s -> run_rows bad s rows = IOk s' -> state_ok s'.
+Proof.
+  induction rows as [|r rows IH]; intros s s' Hs; simpl; [intros H; injection H as <-; exact Hs|].
+  destruct (step_row bad s r) as [s1| |] eqn:Hr; try discriminate.
+  intros H. eapply IH; [eapply step_row_ok; eassumption | exact H].
+Qed.
+
+Lemma init_state_ok : state_ok init_state.
+Proof. apply state_ok_intro; [apply empty_tree_ok | apply ids_ok_nil | exact I | simpl; lia]. Qed.
+
+(* every imported document is a tree: ids are positions, parents precede children, a node is registered in the
+   children list of exactly its parent *)
+Theorem loads_tree_ok bad text d : loads bad text = IOk d -> tree_ok d.
+Proof.
+  unfold loads. destruct (run_rows bad init_state (rows_of_text text)) as [s| |] eqn:H; try discriminate.
+  intros E. injection E as <-. exact (s_tree _ (run_rows_ok _ _ _ _ init_state_ok H)).
+Qed.
